@@ -17,7 +17,7 @@ class Dumper:
         mdir = os.path.join(self.dir, "mirror")
         mirror.make_mirror(mdir, {}, cfg="verif_native", top_mod=os.path.join(VERIF, "harness", "native_dump.rs"))
         ddir = os.path.join(self.dir, "dumper")
-        os.makedirs(os.path.join(ddir, "src"))
+        os.makedirs(os.path.join(ddir, "src"), exist_ok=True)
         feats = ", ".join('"%s"' % f for f in features)
         with open(os.path.join(ddir, "Cargo.toml"), "w") as f:
             f.write(
@@ -37,15 +37,30 @@ class Dumper:
                            stderr=subprocess.STDOUT)
         if p.returncode != 0:
             raise RuntimeError("native dumper build failed:\n" + p.stdout.decode(errors="replace")[-4000:])
+        self._spawn()
+
+    def _spawn(self):
         self.proc = subprocess.Popen([os.path.join(self.dir, "target", "debug", "dumper")], stdin=subprocess.PIPE,
                                      stdout=subprocess.PIPE, text=True, bufsize=1)
 
-    def _ask(self, line):
+    def _ask(self, line, timeout=8):
+        """One request/response.  A request that does not come back within `timeout` seconds (the real
+        engine hangs) kills and restarts the helper and is reported as {"ok": True, "timeout": True}; a
+        crash of the helper (panic / abort / stack overflow) as {"ok": True, "crashed": rc}."""
+        import select
         self.proc.stdin.write(line + "\n")
         self.proc.stdin.flush()
+        r, _, _ = select.select([self.proc.stdout], [], [], timeout)
+        if not r:
+            self.proc.kill()
+            self.proc.wait()
+            self._spawn()
+            return {"ok": True, "timeout": True}
         out = self.proc.stdout.readline()
         if not out:
-            raise RuntimeError("dumper died on: " + line)
+            rc = self.proc.wait()
+            self._spawn()
+            return {"ok": True, "crashed": rc}
         return json.loads(out)
 
     def dump(self, pattern, flags, no_opt=False):
@@ -56,6 +71,19 @@ class Dumper:
         cps = ",".join(str(ord(c)) if isinstance(c, str) else str(c) for c in pattern)
         h = ",".join(str(ord(c)) for c in hay)
         return self._ask("find\t%s\t%d\t%s\t%d\t%s" % (flags, 1 if no_opt else 0, cps, start, h))
+
+    def prop(self, kind, name):
+        return self._ask("prop\t%s\t%s" % (kind, name))
+
+    def find_ascii(self, pattern, flags, no_opt, hay, start):
+        cps = ",".join(str(ord(c)) if isinstance(c, str) else str(c) for c in pattern)
+        h = ",".join(str(ord(c)) for c in hay)
+        return self._ask("finda\t%s\t%d\t%s\t%d\t%s" % (flags, 1 if no_opt else 0, cps, start, h))
+
+    def find_nopred(self, pattern, flags, no_opt, hay, start):
+        cps = ",".join(str(ord(c)) if isinstance(c, str) else str(c) for c in pattern)
+        h = ",".join(str(ord(c)) for c in hay)
+        return self._ask("findnp\t%s\t%d\t%s\t%d\t%s" % (flags, 1 if no_opt else 0, cps, start, h))
 
     def close(self):
         try:
